@@ -54,6 +54,16 @@ EDITS = [
  ("setu64.rs", "insert placeholder: stand-in for 0 not removed", r"let had_zero = p_remove\(s\.bits, a, 0\);", "let had_zero = p_remove(0, a, 0);"),
  ("setu64.rs", "insert placeholder: new placeholder off by one", r"(\n\s*)s\.bits = i;(\s*if had_zero)", r"\g<1>s.bits = i + 1;\g<2>"),
  ("setu32.rs", "insert placeholder: scan accepts 32", r"while i <= 32 \|\| i == e", "while i < 32 || i == e"),
+ ("setu64.rs", "inline constructor: gap off by one", r"let y = if offset == 0 \{ x \} else \{ x - last - 1 \};", "let y = if offset == 0 { x } else { x - last };"),
+ ("setu64.rs", "inline constructor: width test weakened", r"(fn new_sorted_deduped[\s\S]*?)if log_2\(y\) > nbits \{", r"\g<1>if log_2(y) > nbits + 1 {"),
+ ("setu64.rs", "inline constructor: payload shifted wrongly", r"bits = bits \| \(y as usize\) << offset;", "bits = bits | (y as usize) << (offset + 1);"),
+ ("setu64.rs", "inline constructor: length limit", r"(fn new_sorted_deduped[\s\S]*?)v\.len\(\) > BITSPLITS\.len\(\) - 1", r"\g<1>v.len() > BITSPLITS.len() - 2"),
+ ("setu32.rs", "inline constructor: offset not advanced by the width", r"(fn new\(mut v[\s\S]*?)offset \+= nbits;", r"\g<1>offset += nbits + 1;"),
+ ("setu64/iter.rs", "inline iteration: gap not restored", r"self\.last = self\.last \+ 1 \+ difference", "self.last = self.last + difference"),
+ ("setu64/iter.rs", "inline iteration: payload not advanced", r"(Internal::Stack\(_\) => \{[\s\S]*?)self\.bits = self\.bits >> nbits;", r"\g<1>self.bits = self.bits >> (nbits - 1);"),
+ ("setu32/iter.rs", "inline iteration: wrong width index", r"let nbits = bitsplits\[\(self\.sz - self\.sz_left\) as usize\];", "let nbits = bitsplits[(self.sz_left - 1) as usize];"),
+ ("setu64/iter.rs", "plain iteration: placeholder not mapped back to 0", r"return Some\(if x == self\.bits \{ 0 \} else \{ x \}\);", "return Some(x);"),
+ ("setu32/iter.rs", "plain iteration: count not decremented", r"(Internal::Big \{ a, \.\. \} => \{\s*while let[\s\S]*?)self\.sz_left -= 1;", r"\g<1>"),
  ("setu64.rs", "BITSPLITS row", r"&\[25, 12, 12, 12\]", "&[26, 12, 12, 12]"),
  ("setu32.rs", "log_2 width", r"(fn log_2\(x: u32\)[\s\S]*?)num_bits::<u32>\(\) as u32 - x\.leading_zeros\(\)", r"\g<1>num_bits::<u32>() as u32 + 1 - x.leading_zeros()"),
  ("setu32.rs", "compute_array_bits large threshold", r"else if log_2\(mx\) > 62 \{", "else if log_2(mx) > 31 {"),
@@ -75,12 +85,15 @@ def main():
     shutil.copytree("/repo/src", W + "/repo/src")
     sh(f"rsync -a --exclude .lake/build/bin {V}/lean/ {W}/lean/")
     env = dict(os.environ, VERIF_REPO=W + "/repo", VERIF_GEN_OUT=W + "/lean/TinysetModel/Generated")
-    target = "TinysetModel.Proofs.Consts TinysetModel.Proofs.Fns TinysetModel.Proofs.Loops TinysetModel.Proofs.ContainsSrc TinysetModel.Proofs.RemoveSrc TinysetModel.Proofs.InsertSrc TinysetModel.Proofs.Fits"
+    target = "TinysetModel.Proofs.Consts TinysetModel.Proofs.Fns TinysetModel.Proofs.Loops TinysetModel.Proofs.ContainsSrc TinysetModel.Proofs.RemoveSrc TinysetModel.Proofs.InsertSrc TinysetModel.Proofs.TinySrc TinysetModel.Proofs.Fits"
     rc, out = sh(f"python3 {V}/tools/gen_consts.py && lake build {target}", cwd=W + "/lean", env=env)
     if rc != 0:
         print("baseline does not build:", out[-800:]); return 2
     n = caught = 0
+    only = os.environ.get("TIE_ONLY")          # run only the edits whose description contains this text
     for fname, what, pat, rep in EDITS:
+        if only and only not in what:
+            continue
         path = f"{W}/repo/src/{fname}"
         orig = open(path).read()
         new, k = re.subn(pat, rep, orig, count=1)
